@@ -74,6 +74,17 @@ fn store_ent_size(e: &StoreEnt, ver: Ver, w: usize) -> usize {
     rc::encode(&ap, w).len()
 }
 
+/// signature of an unclassified frame: packet type (+ QoS for PUBLISH) and whether connected
+pub fn unclassified_sig(first_byte: u8, m: &Mdl) -> String {
+    let ty = first_byte >> 4;
+    let kind = if ty == 3 { format!("PUBLISH(q{})", (first_byte >> 1) & 3) } else { format!("type{ty}") };
+    format!("c05.unclassified|{}|{}", kind, if m.st == St::Connected { "connected" } else { "not-connected" })
+}
+
+pub fn close_order_pub(m: &Mdl, c: &Call, r: &mut Rules) {
+    close_order(m, c, r)
+}
+
 /// C19 — pure function of one event list (+ the call kind for the timeout clause)
 fn close_order(m: &Mdl, c: &Call, r: &mut Rules) {
     let mut closed = false;
@@ -627,7 +638,7 @@ fn on_recv(m: &mut Mdl, pre: &Mdl, ap: &AP, frame: &[u8], c: &Call, r: &mut Rule
     // C05 classification: delivered, answered as a protocol-level duplicate, or reported
     let dup_answer = c.sends().iter().any(|a| matches!(a, AP::Ack { kind: AckKind::Pubrec, .. } | AP::Ack { kind: AckKind::Pubcomp, .. }));
     if !delivered && !errored && !dup_answer {
-        r.viol("c05.unclassified", pre, format!("a complete {} frame was neither delivered, answered as a duplicate nor reported: {}", ap.kind_name(), c.describe()));
+        r.viol_sig("c05.unclassified", unclassified_sig(frame.first().copied().unwrap_or(0), pre), pre, format!("a complete {} frame was neither delivered, answered as a duplicate nor reported: {}", ap.kind_name(), c.describe()));
     }
     match ap {
         AP::Connect { ver: pv, clean, keep_alive, props, .. } => {
